@@ -807,8 +807,8 @@ class Controller(object):
             assert rvec_to_save is not None, "Soft restart: specified x_to_save but not rvec_to_save"
             assert nsamples_to_save is not None, "Soft restart: specified x_to_save but not nsamples_to_save"
             self.model.save_point(x_in_abs_coords_to_save, rvec_to_save, nsamples_to_save, self.nx, x_in_abs_coords=True)
-        self.model.save_point(self.model.xopt(abs_coordinates=True), self.model.ropt(), self.nx,
-                              self.model.nsamples[self.model.kopt], x_in_abs_coords=True)
+        self.model.save_point(self.model.xopt(abs_coordinates=True), self.model.ropt(), self.model.nsamples[self.model.kopt],
+                              self.model.eval_num[self.model.kopt], x_in_abs_coords=True)
 
         if self.do_logging:
             module_logger.info("Soft restart [currently, f = %g after %g function evals]" % (self.model.objopt(), self.nf))
